@@ -255,6 +255,27 @@ def main():
                         pass
             record("new-nograd-is-constant:" + nm, "%d argument(s)" % nargs, not moved,
                    "registered as non-differentiable, but its value moves with its argument")
+            # ... also at special points (zeros, integers, ties between the arguments), where a piecewise-constant function
+            # may JUMP (a change that does not shrink with the displacement) but must not move continuously
+            for spts in ((onp.array([0.0, -1.0, 0.0]), onp.array([0.5, 0.25, -2.0])), (onp.array([1.0, 1.0, 2.0]), onp.array([1.0, 0.0, 2.0]))):
+                try:
+                    v0 = onp.asarray(base(*spts[:nargs]), float)
+                except Exception:
+                    continue
+                creeping = False
+                for k in range(nargs):
+                    ds = []
+                    for h in (1e-4, 1e-7):
+                        q = [p_.copy() for p_ in spts[:nargs]]
+                        q[k] = q[k] + h
+                        try:
+                            ds.append(float(onp.max(onp.abs(onp.asarray(base(*q), float) - v0))))
+                        except Exception:
+                            ds.append(0.0)
+                    if 0.0 < ds[1] < 1e-3 and ds[1] < ds[0]:
+                        creeping = True
+                record("new-nograd-is-constant-at-special-points:" + nm, "%d argument(s)" % nargs, not creeping,
+                       "registered as non-differentiable, but at zeros / ties its value follows an argument continuously")
             break
         if found is None:
             dist("new-nograd-no-template:" + nm)
@@ -393,6 +414,28 @@ def main():
                 record("blocks-flow-fwd:" + name, repr(x0.tolist()), eq(t, fn(onp, x0) * 1.0), repr(t))
             except Exception as ex:
                 record("blocks-flow-raised:" + name, repr(x0.tolist()), False, repr(ex))
+    # ---- conversions to a type without a derivative (bool, integers) are piecewise constant: the flow is blocked in both
+    #      modes (or the conversion is refused loudly) ----
+    convs = {"x.astype(bool)": lambda m, x: x.astype(bool), "x.astype(int)": lambda m, x: x.astype(int), "x.astype('int32')": lambda m, x: x.astype("int32"),
+             "x.astype('uint8')": lambda m, x: x.astype("uint8"), "array(x, dtype=bool)": lambda m, x: m.array(x, dtype=bool),
+             "array(x, dtype=int)": lambda m, x: m.array(x, dtype=int), "array(x, int)": lambda m, x: m.array(x, int),
+             "full((3,), x[0], dtype=int)": lambda m, x: m.full((3,), x[0], dtype=int), "full((3,), x[1], dtype=bool)": lambda m, x: m.full((3,), x[1], dtype=bool)}
+    for cname, cf in convs.items():
+        for x0 in (onp.array([-1.5, 0.0, 2.5]), onp.array([3.0, 0.5, -2.0])):
+            want = onp.asarray(cf(onp, x0), float)
+            for opname, run_ in (("rev", lambda: grad(lambda x: anp.sum(x * cf(anp, x)))(x0)),
+                                 ("fwd", lambda: make_jvp(lambda x: x * cf(anp, x))(x0)(onp.ones(3))[1]),
+                                 ("rev-only-through", lambda: grad(lambda x: anp.sum(cf(anp, x) * 3.0) + 0.0 * anp.sum(x))(x0))):
+                try:
+                    got = onp.asarray(run_(), float)
+                except (NotImplementedError, TypeError):
+                    dist("conversion-refused")
+                    continue
+                except Exception as ex:
+                    record("conversion-blocks-flow:%s:%s" % (cname, opname), repr(x0.tolist()), False, repr(ex))
+                    continue
+                record("conversion-blocks-flow:%s:%s" % (cname, opname), repr(x0.tolist()),
+                       eq(got, onp.zeros(3) if opname == "rev-only-through" else want), repr(got.tolist()))
     out["keys"] = sorted(set(out["keys"]))
     print(json.dumps(out, default=str))
 
